@@ -467,6 +467,10 @@ namespace vh
                         return;
                     Ctx c;
                     Outcome o = run_one(bytes, c, true);
+                    // checkpoint: a shard that is killed later (sanitizer abort, stopwatch) still
+                    // reports what it explored up to that point
+                    if (!out.empty() && !st.frozen && st.evaluations % 512 == 0)
+                        dump_stats(out, pid, wall(), "rc", seed);
                     if (o == DISC)
                         RC_DISCARD("discard");
                     if (o == VIOL)
